@@ -631,7 +631,7 @@ func (g *Gen) fieldKey(st types.Type, i int) (key, srt string) {
 
 func (g *Gen) ptrKey(t types.Type) (key, srt string) {
 	es := g.S.sortOf(t)
-	key = "P:" + es
+	key = "P:" + refKeyName(t, es)
 	srt = "(Array Int " + es + ")"
 	g.setKeyType(key, t)
 	g.heapKeySort(key, srt)
@@ -640,11 +640,21 @@ func (g *Gen) ptrKey(t types.Type) (key, srt string) {
 
 func (g *Gen) elemKey(t types.Type) (key, srt string) {
 	es := g.S.sortOf(t)
-	key = "E:" + es
+	key = "E:" + refKeyName(t, es)
 	srt = "(Array Int (Array " + g.idxSort() + " " + es + "))"
 	g.setKeyType(key, t)
 	g.heapKeySort(key, srt)
 	return
+}
+
+// refKeyName: cells and elements that hold references live under their own heap key (references and mathematical
+// integers share an SMT sort, but only references are bounded by the allocation watermark).
+func refKeyName(t types.Type, es string) string {
+	switch t.Underlying().(type) {
+	case *types.Pointer, *types.Map, *types.Chan:
+		return "Ref"
+	}
+	return es
 }
 
 func (g *Gen) ghostKey(name string, srt string) string {
@@ -772,6 +782,9 @@ func (g *Gen) refBoundOf(v string, t types.Type, top string, depth int) string {
 		return "(<= " + v + " " + top + ")"
 	case *types.Slice:
 		return "(<= (sl_ref " + v + ") " + top + ")"
+	case *types.Interface:
+		g.S.needRef = true
+		return "(<= (iface_ref " + v + ") " + top + ")"
 	case *types.Struct:
 		if depth > 3 {
 			return "true"
